@@ -525,6 +525,65 @@ def query_order(h0: int, h1: int, h2: int, qx: int, qy: int, lw: int) -> bool:
     return hx.end(True)
 
 
+def collector_order(h0: int, h1: int, h2: int) -> bool:
+    """
+    pre: 0 <= h0 < 8 and 0 <= h1 < 8 and 0 <= h2 < 8
+    post: _
+    """
+    # the order in which a collector offers the agents to the user's per-agent function is part of the trajectory (the
+    # function may draw from the model's generator): it is the same under any set-iteration / address order
+    import ECAgent.Collectors as _Col
+    hx.begin()
+
+    def run(order):
+        m = Model(seed=1, logger=NULL_LOGGER)
+        for i in range(3):
+            a = HA("r%d" % i, m)
+            a.h = order[i]
+            m.environment.add_agent(a)
+        seen = []
+
+        def per_agent(agent):
+            seen.append(agent.id)
+            return 1
+        m.systems.add_system(_Col.AgentCollector(m, per_agent))
+        HavocSet.order, HavocSet._k, HavocSet.iterated = list(order), 0, 0
+        with _Patch(Havoc([0, 0, 0])):
+            m.execute()
+        return seen
+    one, two = run([h0, h1, h2]), run([0, 0, 0])
+    hx.reach('collected')
+    if one != two or one != ["r0", "r1", "r2"]:
+        return hx.end(hx.fail("the order in which a collector visits the agents depends on set-iteration / address order",
+                              first=one, second=two))
+    return hx.end(True)
+
+
+def large_population() -> bool:
+    """
+    post: _
+    """
+    # services on a LARGE population still draw from the model's own generator only (size-dependent fast paths)
+    hx.begin()
+    n = hx.P['agents']
+    m = Model(seed=5, logger=NULL_LOGGER)
+    stream = [(i * 7919 + 13) % 100003 for i in range(n + 2)]       # a fixed stream: the model's own generator
+    m.random = SymRandom(stream)
+    for i in range(n):
+        m.environment.add_agent(Agent("p%d" % i, m))
+    hav = Havoc([0, 0, 0])
+    with _Patch(hav):
+        got = m.environment.shuffle()
+    hx.reach('shuffled')
+    exp = _fisher_yates(list(m.environment.agents.values()), stream)
+    if hav.used != 0:
+        return hx.end(hx.fail("a process-global generator was consulted for a large population", times=hav.used, agents=n))
+    if len(m.random.draws) != n - 1 or not hx.same_seq(got, exp):
+        return hx.end(hx.fail("shuffle of a large population is not the model generator's own permutation", agents=n,
+                              draws=len(m.random.draws)))
+    return hx.end(True)
+
+
 import ECAgent.Decode as _D
 
 
@@ -636,6 +695,10 @@ def obligations(tier):
           bounds={"world": "2x2 GridWorld, 3 agents", "timesteps": 2, "list consumed": "pop(randrange(len)) on the framework's answer"}),
         X("query_order", query_order, parts=[{"wrap": True}, {"wrap": False}], labels=("several_hits",), timeout=600,
           encoded=(Env.SpaceWorld.get_agents_at,), bounds={"world": "4x4 continuous, 4 agents (three on the border)", "query": "any point, leeway 0..2"}),
+        X("collector_order", collector_order, labels=("collected",), timeout=300, encoded=(Environment.get_agents,),
+          bounds={"agents": 3, "set-iteration / address order": "symbolic"}),
+        X("large_population", large_population, parts=[{"agents": 1500}], labels=("shuffled",), timeout=300, encoded=(Environment.shuffle, Environment.get_random_agent),
+          bounds={"agents": "1500 (one concrete population: decides that no size-dependent path leaves the model's generator)"}),
         X("decoded_twice", decoded_twice, labels=("stepped",), timeout=300, encoded=(_D.Decoder.decode, Environment.get_random_agent),
           bounds={"description": "1 system, 2 agents, decoded twice from the same dict", "timesteps": 2}),
         X("batch_seed", batch_seed, labels=("built",), timeout=300,
